@@ -85,6 +85,9 @@ def Owned.alt : Owned → String
   | .u64s _ => "std::vector<uint64_t>"
   | .bytes _ => "std::vector<uint8_t>"
 
+/-- `variant::index()` of a caller-side value, from the alternative list found in the source -/
+def Value.index (v : Value) : Nat := Gen.attrValueAlts.idxOf v.alt
+
 /-- `variant::index()` of the stored value, from the alternative list found in the source -/
 def Owned.index (o : Owned) : Nat := Gen.ownedValueAlts.idxOf o.alt
 
